@@ -45,20 +45,29 @@ theorem dedupBy_congr {r r' : α → α → Bool} (h : ∀ x y, r x y = r' x y) 
     on the key lists. -/
 theorem setOfFrozensets_eq [DecidableEq α] [BEq κ] [LawfulBEq κ] {ι : Type} (k : α → κ) (rH rM : α → α → Bool)
     (hH : ∀ x y, rH x y = (k x == k y)) (hM : ∀ x y, rM x y = (k x == k y))
-    (F : ι → List α) (G : ι → List κ) (hFG : ∀ h, (F h).map k = G h) (hs hs' : List ι) :
+    (F F' : ι → List α) (G : ι → List κ) (hFG : ∀ h, (F h).map k = G h) (hFG' : ∀ h, (F' h).map k = G h)
+    (hs hs' : List ι) :
     Py.setEq (fun a b => msEqBy rH a b && Py.setEq rM a b)
         (dedupBy (fun a b => msEqBy rH a b && Py.setEq rM a b) (hs.map (fun h => dedupBy rM (F h))))
-        (dedupBy (fun a b => msEqBy rH a b && Py.setEq rM a b) (hs'.map (fun h => dedupBy rM (F h)))) =
+        (dedupBy (fun a b => msEqBy rH a b && Py.setEq rM a b) (hs'.map (fun h => dedupBy rM (F' h)))) =
       pySetEq (pySetEq (fun (x y : κ) => x == y)) (hs.map G) (hs'.map G) := by
   have eH : rH = fun x y => k x == k y := by funext x y; exact hH x y
   have eM : rM = fun x y => k x == k y := by funext x y; exact hM x y
   subst eH eM
   have hR := key_bequiv (α := α) k
-  rw [setEq_dedup, pySetEq_map, pySetEq_map]
+  have e1 : hs.map (fun h => dedupBy (fun x y => k x == k y) (F h)) =
+      (hs.map F).map (dedupBy (fun x y => k x == k y)) := by simp [List.map_map]
+  have e2 : hs'.map (fun h => dedupBy (fun x y => k x == k y) (F' h)) =
+      (hs'.map F').map (dedupBy (fun x y => k x == k y)) := by simp [List.map_map]
+  have e3 : hs.map G = (hs.map F).map (List.map k) := by
+    simp only [List.map_map]; exact List.map_congr_left (fun h _ => (hFG h).symm)
+  have e4 : hs'.map G = (hs'.map F').map (List.map k) := by
+    simp only [List.map_map]; exact List.map_congr_left (fun h _ => (hFG' h).symm)
+  rw [setEq_dedup, e1, e2, e3, e4, pySetEq_map, pySetEq_map]
   congr 1
-  funext h h'
-  rw [setEq_dedup, ← hFG h, ← hFG h', pySetEq_map]
-  cases hp : pySetEq (fun x y => k x == k y) (F h) (F h')
+  funext x y
+  rw [setEq_dedup, pySetEq_map]
+  cases hp : pySetEq (fun x y => k x == k y) x y
   · simp
   · obtain ⟨c, hc, hf⟩ := dedup_matching hR hp
     simp [msEqBy_of_matching hR hc hf]
